@@ -147,7 +147,7 @@ def sort_key_obligations() -> list:
         # no ILI is None or '' (both mean "none"): compared as the empty string
         same_ili = z3.If(ia.none, empty, ia.z) == z3.If(ib.none, empty, ib.z)
         obs.append(Obligation(f'wn.taxonomy._synset_sort_key:separates:p{k}', kind='post',
-                              assumptions=list(o.pc) + [same_key],
+                              assumptions=list(o.pc) + [same_key], vacuity=False,     # a path pair may be infeasible
                               goal=z3.And(a.attrs['_id'].z == b.attrs['_id'].z, same_ili),
                               detail='equal sort keys => same rowid and same ILI (no ties between different synsets)',
                               source=source_span(fn), **cm))
